@@ -160,6 +160,48 @@ func checkC16(p *Program, r *Report) {
 		checkRejectBeforeEffects(p, r, in, "ErrIndexLen", "indexes")
 		checkSuccessImpliesValidated(p, r, in, "ErrIndexLen", "indexes")
 	}
+	// wrappers: a method of package array that delegates to a validating initialiser stores nothing
+	// into its receiver before the delegation — a rejected Init builds nothing, whatever the array type
+	if ii != nil && in != nil {
+		validators := map[*ssa.Function]bool{ii: true, in: true}
+		for _, f := range p.FuncsOf(arrayPath) {
+			if f.Synthetic != "" || f.Signature.Recv() == nil || len(f.Blocks) == 0 || validators[f] {
+				continue
+			}
+			var calls []ssa.CallInstruction
+			for _, c := range callsIn(f) {
+				if validators[calleeOf(c)] {
+					calls = append(calls, c)
+				}
+			}
+			if len(calls) == 0 {
+				continue
+			}
+			r.Func(shortFn(f))
+			recv := f.Params[0]
+			var bad []string
+			instrsOf(f, func(b *ssa.BasicBlock, x ssa.Instruction) {
+				st, ok := x.(*ssa.Store)
+				if !ok || !rootedAt(st.Addr, recv) {
+					return
+				}
+				for _, c := range calls {
+					cb := c.Block()
+					before := false
+					if cb == b {
+						before = instrIndex(st) < instrIndex(c)
+					} else {
+						before = reachableFrom(b, nil)[cb]
+					}
+					if before {
+						bad = append(bad, "store to the receiver at "+p.Pos(st.Pos())+" precedes the validating "+shortFn(calleeOf(c))+" call")
+					}
+				}
+			})
+			sort.Strings(bad)
+			r.Check(len(bad) == 0, shortFn(f)+" delegates to the validating initialiser before any effect", p.Pos(f.Pos()), "no receiver store can precede the delegation", strings.Join(firstN(dedupStrings(bad), 3), "; ")+": the store survives a rejected Init")
+		}
+	}
 	// constructors
 	for _, f := range p.FuncsOf(arrayPath) {
 		if f.Parent() != nil || f.Signature.Recv() != nil || !strings.HasPrefix(f.Name(), "New") || f.Synthetic != "" {
@@ -656,6 +698,62 @@ func checkEncodeAll(p *Program, r *Report) {
 			}
 		})
 	}
+	// every value stored into Elts is the accumulation of the encoder's output: an append chain over a fresh
+	// buffer; bytes produced by anything else (a bulk encoding/binary.Write, a copy of the caller's memory)
+	// bypass the element encoder the accessors decode with
+	instrsOf(F, func(_ *ssa.BasicBlock, in ssa.Instruction) {
+		st, ok := in.(*ssa.Store)
+		if !ok {
+			return
+		}
+		if _, fv, fa := fieldOfAddr(st.Addr); fa == nil || fv.Name() != "Elts" {
+			return
+		}
+		seen := map[ssa.Value]bool{}
+		var walk func(v ssa.Value) string
+		walk = func(v ssa.Value) string {
+			if seen[v] {
+				return ""
+			}
+			seen[v] = true
+			switch x := v.(type) {
+			case *ssa.Const, *ssa.MakeSlice:
+				return ""
+			case *ssa.Slice:
+				return walk(x.X)
+			case *ssa.Phi:
+				for _, ed := range x.Edges {
+					if w := walk(ed); w != "" {
+						return w
+					}
+				}
+				return ""
+			case *ssa.Call:
+				if bi, ok := x.Call.Value.(*ssa.Builtin); ok && bi.Name() == "append" {
+					return walk(x.Call.Args[0])
+				}
+				if h := calleeOf(x); h != nil && pkgPathOf(h) == arrayPath && len(x.Call.Args) > 0 {
+					// per-element helper that returns the appended buffer
+					for _, a := range x.Call.Args {
+						if isByteSlice(a.Type()) {
+							return walk(a)
+						}
+					}
+				}
+				name := "a call"
+				if h := calleeOf(x); h != nil {
+					name = shortFn(h)
+				} else if x.Call.IsInvoke() {
+					name = x.Call.Method.Name()
+				}
+				return "the result of " + name
+			}
+			return "a value that is not built by appending encoder output"
+		}
+		if w := walk(st.Val); w != "" {
+			bad = append(bad, "Elts is set at "+p.Pos(st.Pos())+" to "+w+", not to the appended results of the element encoder")
+		}
+	})
 	if hasGo {
 		bad = append(bad, shortFn(F)+" starts goroutines: the buffer is filled in chunks whose boundaries must add up exactly")
 	}
